@@ -29,8 +29,9 @@ RULES = {
     "R7": "persistence: writer/reader agreement incl. [:current_index] slices; current_index = number of stored values",
     "R8": "growable storage: the growth step used by _expand_storage is never a caller-supplied 0 (empty chunks are loaded and combined with capacity 0)",
     "R9": "the sample container the code indexes (ThetaHolder.add_theta / get_theta) refuses out-of-range indices and returns the i-th added sample (C10.R3 run here)",
+    "R10": "constructor options are live: every attribute the constructor binds from a parameter is read by a method of the class",
 }
-MIN = {"R1": 7, "R2": 2, "R3": 4, "R4": 3, "R5": 2, "R6": 3, "R7": 4, "R8": 1, "R9": 3}
+MIN = {"R1": 7, "R2": 2, "R3": 4, "R4": 3, "R5": 2, "R6": 3, "R7": 4, "R8": 1, "R9": 3, "R10": 1}
 TRUSTED = ["integer division identity N = C*(N//C) + N%C with 0 <= N%C < C", "itertools.islice / deque consume semantics"]
 TECHNIQUE = "symbolic summarisation of straight-line integer code into polynomial normal forms; guard dominance; writer/reader agreement; three-valued evaluation of path conditions under a boundary hypothesis"
 LEVEL_TEXT = ("Disjointness, coverage and balance of the chunks are exactly the affine identities discharged here, valid for "
@@ -816,7 +817,11 @@ def r_holder(ctx):
     ctx.borrow(C10.r3, "R9")
 
 
-RULE_FUNCS = [r1, r2, r3, r4, r5, r6, r7, r8, r_bsearch, r_holder]
+def r_options(ctx):
+    common.options_are_live(ctx, "R10", ["batchie.distance.mse.MSEDistance"], exempt=())
+
+
+RULE_FUNCS = [r1, r2, r3, r4, r5, r6, r7, r8, r_bsearch, r_holder, r_options]
 
 
 def run(ctx):
